@@ -1,9 +1,6 @@
 """C19 - production weights are normalised per non-terminal, stable and respected."""
 from __future__ import annotations
 
-import ast
-import inspect
-import textwrap
 import time
 
 from geneticengine.grammar.grammar import Grammar, extract_grammar
@@ -21,33 +18,10 @@ FUNCTIONS = [
     "stackgggp.create_tree_using_stacks (weighted choice of the target type)",
 ]
 ASSUMPTIONS = [
-    "engine B: weights are z3 Reals (exact arithmetic), rule structure concrete: one rule of 1-4 productions, two independent rules, and the nested structure of fixture f6; learning rate 1 and extra == current weights, as extract_grammar calls it",
+    "engine B: declared weights are z3 Reals (exact arithmetic) stored in the declarations of real classes; Grammar.get_weights and the whole of Grammar.update_weights are interpreted from the current source (repository calls over concrete arguments - Grammar.__init__, register_type, preprocess - run natively); rule structure concrete: one rule of 1-4 productions, two independent rules, two- and three-level nesting; every listed subset of productions declared (the others count as weight one); three successive extractions",
     "precondition: every rule has at least one positive weight (an all-zero rule cannot be normalised; the property does not say what should happen)",
     "repeated real extraction is compared with tolerance 1e-9 relative (one-ulp float drift is not a finding)",
 ]
-
-
-class _FakeGrammar:
-    """stands for `self` while the numeric prefix of update_weights is interpreted"""
-
-    def __init__(self, alternatives, weights):
-        self.alternatives = alternatives
-        self._w = weights
-
-    def get_weights(self):
-        return dict(self._w)
-
-    get_weights._py2smt_native = True
-
-
-def _numeric_prefix_len():
-    """number of leading statements of update_weights up to and including the normalisation loop"""
-    src = textwrap.dedent(inspect.getsource(Grammar.update_weights))
-    body = ast.parse(src).body[0].body
-    for i, st in enumerate(body):
-        if isinstance(st, ast.For) and "alternatives" in ast.dump(st.iter):
-            return i + 1
-    raise RuntimeError("normalisation loop not found in update_weights")
 
 
 STRUCTS = {
@@ -57,38 +31,95 @@ STRUCTS = {
     "one_rule_4": {"R": ["a", "b", "c", "d"]},
     "two_rules": {"R": ["a", "b"], "S": ["c", "d", "e"]},
     "nested_f6": {"Root": ["A", "Z", "B", "Sub"], "Sub": ["S1", "S2"]},
+    "nested_3": {"Root": ["A", "Mid"], "Mid": ["M1", "Low"], "Low": ["L1", "L2"]},
 }
 
 
-def _apply(alts, w):
-    """one update_weights(1, w) step through the interpreter over the CURRENT source"""
+# a production with a field of another rule's type (how an independent rule is reached)
+FIELDS = {"two_rules": {"a": "S"}}
+
+
+def masks(struct):
+    """the subsets of productions that carry a declared weight (the others count as weight one)"""
+    alts = STRUCTS[struct]
+    rules = list(alts)
+    allp = [p for ps in alts.values() for p in ps]
+    out = {"all": allp, "first": allp[:1], "alternate": allp[::2]}
+    if len(rules) > 1:
+        out["first_rule"] = list(alts[rules[0]])
+        out["last_rule"] = list(alts[rules[-1]])
+    if len(allp) > 1:
+        out["last"] = allp[-1:]
+    return out
+
+
+def build(struct, declared: dict):
+    """real classes for a structure: every rule an abstract class (the first one the start symbol;
+    a rule that is a production of another rule is a nested abstract class), productions concrete
+    dataclasses; `declared` maps production name -> weight to declare"""
+    from abc import ABC
+    from dataclasses import make_dataclass
+
+    from geneticengine.grammar.decorators import abstract, weight
+
+    alts = STRUCTS[struct]
+    made = {}
+    nested = {p for ps in alts.values() for p in ps}
+    for r in alts:
+        if r not in nested:
+            made[r] = type(r, (ABC,), {})
+    for r, ps in alts.items():
+        for p in ps:
+            if p in alts:
+                c = abstract(type(p, (made[r],), {}))
+            else:
+                f = FIELDS.get(struct, {}).get(p)
+                c = make_dataclass(p, [("x", made[f] if f else int)], bases=(made[r],))
+            made[p] = weight(declared[p])(c) if p in declared else c
+    start = made[list(alts)[0]]
+    return start, [c for n, c in made.items() if c is not start], made
+
+
+def _extract_interpreted(start, classes):
+    """extract_grammar's steps with update_weights run through the interpreter over the CURRENT
+    source (the whole method: normalisation, write-back into the class declarations, rebuild)"""
+    from geneticengine.grammar.decorators import get_gengy
     from vf.engine.py2smt import Interp
 
-    fake = _FakeGrammar(alts, w)
-    outs = Interp().run_prefix(Grammar.update_weights, [1, dict(w)], fake, _numeric_prefix_len())
-    assert len(outs) == 1, "forking in update_weights"
-    return outs[0][1]["weights"]
+    g = Grammar(start, classes, False)
+    g.register_type(start)
+    g.preprocess()
+    if any("weight" in get_gengy(p) for p in classes):
+        it = Interp()
+        w0 = it.run(Grammar.get_weights, [], self_obj=g)
+        assert len(w0) == 1
+        outs = it.run(Grammar.update_weights, [1, w0[0][1]], self_obj=g)
+        assert len(outs) == 1, "forking in update_weights"
+    it = Interp()
+    w = it.run(Grammar.get_weights, [], self_obj=g)
+    assert len(w) == 1
+    return {k.__name__: v for k, v in w[0][1].items()}
 
 
 def smt_update_weights(cfg):
     import z3
 
     alts = STRUCTS[cfg["struct"]]
-    names = sorted({p for ps in alts.values() for p in ps} | set(alts))
-    d = {n: z3.Real("w_" + n) for n in names}
-    pre = [d[n] >= 0 for n in names] + [z3.Sum([d[p] for p in ps]) > 0 for ps in alts.values()]
-    w1 = _apply(alts, d)
-    w2 = _apply(alts, w1)
+    decl_names = masks(cfg["struct"])[cfg["mask"]]
+    allp = [p for ps in alts.values() for p in ps]
+    sym = {n: z3.Real("w_" + n) for n in decl_names}
+    d = {n: sym.get(n, z3.RealVal(1)) for n in allp}
+    pre = [sym[n] >= 0 for n in decl_names] + [z3.Sum([d[p] for p in ps]) > 0 for ps in alts.values()]
+    start, classes, made = build(cfg["struct"], sym)
+    w1 = _extract_interpreted(start, classes)  # first extraction
+    w2 = _extract_interpreted(start, classes)  # the same classes extracted again
+    w3 = _extract_interpreted(start, classes)
     queries, t_solver = [], 0.0
     for r, ps in alts.items():
         queries.append((f"{r}:non-negative", z3.Or([w1[p] < 0 for p in ps])))
         queries.append((f"{r}:sum-to-one", z3.Sum([w1[p] for p in ps]) != 1))
         queries.append((f"{r}:ratios-preserved", z3.Or([w1[p] * d[q] != w1[q] * d[p] for p in ps for q in ps if p < q] or [z3.BoolVal(False)])))
-        queries.append((f"{r}:idempotent", z3.Or([w2[p] != w1[p] for p in ps])))
-    # weights outside any rule are left alone
-    loose = [n for n in names if not any(n in ps for ps in alts.values())]
-    if loose:
-        queries.append(("non-production-weights-untouched", z3.Or([w1[n] != d[n] for n in loose])))
+        queries.append((f"{r}:idempotent", z3.Or([w2[p] != w1[p] for p in ps] + [w3[p] != w1[p] for p in ps])))
     n_unsat = n_unknown = 0
     for name, neg in queries:
         s = z3.Solver()
@@ -101,75 +132,61 @@ def smt_update_weights(cfg):
             n_unsat += 1
         elif r == "sat":
             m = s.model()
-            model = {n: str(m.eval(d[n], True)) for n in names}
-            return {"verdict": "refuted", "clause": "weights:" + name.split(":")[-1], "model": {"struct": cfg["struct"], "weights": model, "query": name}, "queries": len(queries), "unsat": n_unsat, "sat": 1, "unknown": n_unknown, "solver_s": round(t_solver, 2), "encoded": "Grammar.update_weights numeric prefix (current source)"}
+            model = {n: str(m.eval(sym[n], True)) for n in decl_names}
+            return {"verdict": "refuted", "clause": "weights:" + name.split(":")[-1], "model": {"struct": cfg["struct"], "mask": cfg["mask"], "weights": model, "query": name}, "queries": len(queries), "unsat": n_unsat, "sat": 1, "unknown": n_unknown, "solver_s": round(t_solver, 2), "encoded": "Grammar.update_weights, Grammar.get_weights (current source)"}
         else:
             n_unknown += 1
-    return {"verdict": "confirmed" if not n_unknown else "inconclusive", "message": f"{n_unknown} unknown" if n_unknown else "", "queries": len(queries), "unsat": n_unsat, "sat": 0, "unknown": n_unknown, "solver_s": round(t_solver, 2), "validated": _validate(alts), "encoded": "Grammar.update_weights numeric prefix (current source)"}
+    return {"verdict": "confirmed" if not n_unknown else "inconclusive", "message": f"{n_unknown} unknown" if n_unknown else "", "queries": len(queries), "unsat": n_unsat, "sat": 0, "unknown": n_unknown, "solver_s": round(t_solver, 2), "validated": _validate(cfg["struct"], decl_names), "encoded": "Grammar.update_weights, Grammar.get_weights (current source)"}
 
 
-def _validate(alts):
-    """translator validation: the encoding evaluated on concrete weights vs the real method on real classes (f6 structure only)"""
+_VALIDATION_WEIGHTS = [3, 1, 0, 2, 5, 4, 7]
+
+
+def _validate(struct, decl_names):
+    """translator validation: the interpreted extraction on exact rationals vs the real
+    extract_grammar on the same structure with the same declared weights"""
     import fractions
 
-    g = f6.grammar()
-    real = {k.__name__: v for k, v in g.get_weights().items()}
-    decl = {c.__name__: fractions.Fraction(f6.DECLARED.get(c.__name__, 1)) for c in f6.CLASSES + [f6.Root]}
-    enc = _apply(STRUCTS["nested_f6"], {k: decl.get(k, fractions.Fraction(1)) for k in ["Root", "A", "Z", "B", "Sub", "S1", "S2"]})
-    bad = [k for k in ("A", "Z", "B", "Sub", "S1", "S2") if abs(float(enc[k]) - real[k]) > 1e-9]
+    conc = {n: _VALIDATION_WEIGHTS[i % 7] for i, n in enumerate(decl_names)}
+    if all(v == 0 for v in conc.values()):
+        conc[decl_names[0]] = 2
+    start, classes, _ = build(struct, {k: fractions.Fraction(v) for k, v in conc.items()})
+    enc = _extract_interpreted(start, classes)
+    start2, classes2, _ = build(struct, {k: float(v) for k, v in conc.items()})
+    real = {k.__name__: v for k, v in extract_grammar(classes2, start2).get_weights().items()}
+    bad = [k for k in real if abs(float(enc[k]) - real[k]) > 1e-9]
     if bad:
         raise RuntimeError(f"translator validation failed for {bad}: encoding {[float(enc[k]) for k in bad]} real {[real[k] for k in bad]}")
-    return 6
+    return len(real)
 
 
 def smt_replay_update_weights(cfg, model):
-    """replay on real classes built with the model's weights"""
+    """replay on real classes declared with the model's weights: extract three times"""
     import fractions
-    from abc import ABC
-    from dataclasses import make_dataclass
-
-    from geneticengine.grammar.decorators import weight
 
     alts = STRUCTS[model["struct"]]
     ws = {k: float(fractions.Fraction(v)) for k, v in model["weights"].items()}
-    roots = {}
-    classes = []
-    top = type("Top", (ABC,), {})
-    for r, ps in alts.items():
-        parent = roots.get(r) or type(r, (top, ABC) if r not in [p for q in alts.values() for p in q] else (ABC,), {})
-        roots[r] = parent
-    # build a flat hierarchy: every rule an abstract class, productions concrete dataclasses
-    made = {}
-    for r, ps in alts.items():
-        base = made.get(r) or type(r, (ABC,), {})
-        made[r] = base
-        for p in ps:
-            if p in alts:
-                sub = type(p, (base,), {})
-                from geneticengine.grammar.decorators import abstract
-
-                made[p] = weight(ws[p])(abstract(sub))
-            else:
-                made[p] = weight(ws[p])(make_dataclass(p, [("x", int)], bases=(base,)))
-    start = made[list(alts)[0]]
-    cls = [c for n, c in made.items() if n != list(alts)[0]]
+    start, classes, _ = build(model["struct"], ws)
+    clause = "weights:" + model["query"].split(":")[-1]
     try:
-        g = extract_grammar(cls, start)
+        runs = [{k.__name__: v for k, v in extract_grammar(classes, start).get_weights().items()} for _ in range(3)]
     except Exception as e:
-        return {"ok": False, "clause": "weights:" + model["query"].split(":")[-1], "detail": {"error": type(e).__name__ + ": " + str(e)[:200], "weights": ws}}
-    got = {k.__name__: v for k, v in g.get_weights().items()}
+        return {"ok": False, "clause": clause, "detail": {"error": type(e).__name__ + ": " + str(e)[:200], "declared": ws}}
+    got = runs[0]
     bad = []
     for r, ps in alts.items():
-        if r != list(alts)[0] and r not in made:
-            continue
         tot = sum(got[p] for p in ps)
-        if abs(tot - 1) > 1e-9 or any(got[p] < 0 for p in ps):
-            bad.append((r, tot))
+        if abs(tot - 1) > 1e-9:
+            bad.append(("sum", r, tot))
+        if any(got[p] < 0 for p in ps):
+            bad.append(("negative", r))
         for p in ps:
             for q in ps:
-                if abs(got[p] * ws[q] - got[q] * ws[p]) > 1e-9:
-                    bad.append((p, q))
-    return {"ok": not bad, "clause": None if not bad else "weights:" + model["query"].split(":")[-1], "detail": {"declared": ws, "extracted": got, "bad": [list(map(str, b)) for b in bad]}}
+                if abs(got[p] * ws.get(q, 1.0) - got[q] * ws.get(p, 1.0)) > 1e-9:
+                    bad.append(("ratio", p, q))
+            if any(abs(run[p] - got[p]) > 1e-9 * max(1, abs(got[p])) for run in runs[1:]):
+                bad.append(("re-extraction", p, [run[p] for run in runs]))
+    return {"ok": not bad, "clause": None if not bad else clause, "detail": {"declared": ws, "extracted": got, "bad": [list(map(str, b)) for b in bad[:6]]}}
 
 
 SMT = {"update_weights": smt_update_weights}
@@ -244,9 +261,10 @@ def obligations(tier: str):
     T = tier == "thorough"
     obs = []
     for st in STRUCTS:
-        if st == "one_rule_4" and not T:
+        if st in ("one_rule_4", "nested_3") and not T:
             continue
-        obs.append(Ob("update_weights", {"struct": st, "timeout_ms": 120000 if T else 30000}, name=f"engineB_update_weights_{st}", kind="smt", timeout=900 if T else 150, twin=False, smoke=0))
+        for mk in masks(st):
+            obs.append(Ob("update_weights", {"struct": st, "mask": mk, "timeout_ms": 120000 if T else 30000}, name=f"engineB_update_weights_{st}_{mk}", kind="smt", timeout=900 if T else 150, twin=False, smoke=0))
     obs.append(Ob("repeat_extraction", {}, name="concrete_f6_repeated_extraction", timeout=60, smoke=1))
     obs.append(Ob("pt_choice", {"fixture": "f6", "D": 6 if T else 3}, name="pt_decider_choice_f6"))
     obs.append(Ob("pt_choice", {"fixture": "f6", "grammar_fn": "grammar_zero_first", "D": 6 if T else 3}, name="pt_decider_choice_f6_zero_weight_first"))
